@@ -405,6 +405,11 @@ fn field_kind(k: usize) -> V {
         8 => V::Var { cases: 3, case: 2, fields: vec![V::Int(9)] },
         9 => V::Bool(false),
         10 => V::List(vec![]),
+        // maps are association lists: the written order of their entries is part of the value (keys that are not in
+        // ascending order, neither numerically nor as encoded bytes, nor by encoded length)
+        12 => V::Map(vec![(V::Int(3), V::Int(30)), (V::Int(1), V::Int(10)), (V::Int(2), V::Int(20))]),
+        13 => V::Map(vec![(V::Bytes(vec![0x62]), V::Int(1)), (V::Bytes(vec![0x61, 0x00]), V::Int(2)), (V::Bytes(vec![0x61]), V::Int(3))]),
+        14 => V::Map(vec![(V::Int(-1), V::Unit), (V::Int(300), V::Unit), (V::Int(0), V::Unit), (V::Int(24), V::Unit)]),
         _ => V::List(vec![V::Rec(vec![V::Int(1)]), V::Rec(vec![V::Int(2)])]),
     }
 }
@@ -413,7 +418,7 @@ fn gen_shape(c: &mut Chooser) -> (V, Pos, usize) {
     let pos = *c.pick(&[Pos::Datum, Pos::MintRedeemer, Pos::InputRedeemer]);
     let order = c.choose(3);
     let nfields = c.choose(7);
-    let fields: Vec<V> = (0..nfields).map(|_| field_kind(c.choose(12))).collect();
+    let fields: Vec<V> = (0..nfields).map(|_| field_kind(c.choose(15))).collect();
     let wrapper = c.choose(3);
     let v = match wrapper {
         0 => V::Rec(fields),
